@@ -579,7 +579,27 @@ def _init_param_map(m: pf.Module, init: pf.FuncDef):
             if any(isinstance(c, ast.Call) and pf.dotted(c.func) in ('set', 'list', 'frozenset') for node in nodes for c in ast.walk(node.value)):
                 wraps_set.add(p)
         elif not used:
-            unrestored[attr] = pf.nsrc(nodes[-1].value)[:60]
+            # "set from no parameter" is evidence only when the value is fully visible: no local that is filled in place afterwards (an accumulator
+            # `bins = defaultdict(list)` + `bins[k].append(v)`), no loop variable, no call of a helper that could read the parameters
+            vis = True
+            mutated_locals = {n.func.value.id if isinstance(n.func.value, ast.Name) else _sub_root_name(n.func.value) for n in pf.walk_shallow(init_i)
+                              if isinstance(n, ast.Call) and isinstance(n.func, ast.Attribute) and n.func.attr in MUTATORS}
+            mutated_locals |= {_sub_root_name(n) for n in pf.walk_shallow(init_i) if isinstance(n, ast.Subscript) and isinstance(n.ctx, (ast.Store, ast.Del))}
+            for node in nodes:
+                work_e: List[ast.AST] = [node.value]
+                seen_n: Set[str] = set()
+                while work_e:
+                    e = work_e.pop()
+                    for n in ast.walk(e):
+                        if isinstance(n, ast.Name) and isinstance(n.ctx, ast.Load) and n.id in defs and n.id not in seen_n:
+                            seen_n.add(n.id)
+                            if n.id in mutated_locals or not all(isinstance(d, ast.expr) for d in defs[n.id]):
+                                vis = False
+                            work_e += [d for d in defs[n.id] if isinstance(d, ast.expr)]
+                        if isinstance(n, ast.Call) and isinstance(n.func, ast.Attribute) and cf.self_attr(n.func, init_i.args.args[0].arg) is not None:
+                            vis = False
+            if vis:
+                unrestored[attr] = pf.nsrc(nodes[-1].value)[:60]
     # `self._vdses.update(<expression over vdses>)` / `.extend(vdses)`: parameter consumed through a mutator call on the slot
     for attr, node, how in _mutations(init_i):
         if isinstance(node, ast.Call) and how.startswith('mutated by') and attr not in param_of_slot:
@@ -599,6 +619,12 @@ def _init_param_map(m: pf.Module, init: pf.FuncDef):
                     param_of_slot[attr] = ps[0]
                     unrestored.pop(attr, None)
     return slot_of_param, param_of_slot, wraps_set, unrestored
+
+
+def _sub_root_name(e: ast.AST) -> Optional[str]:
+    while isinstance(e, ast.Subscript):
+        e = e.value
+    return e.id if isinstance(e, ast.Name) else None
 
 
 def _mutations_in(node: ast.AST) -> List[Tuple[str, ast.AST, str]]:
@@ -759,6 +785,9 @@ def _firm(g: pf.CFG, p: Optional[List[pf.Node]], fn: pf.FuncDef, goal, avoid, co
     for n in p[:-1]:
         if n.kind != 'test' or n.ast is None:
             continue
+        und = _undecoded_finished(n.ast)
+        if und is not None:
+            raise AnalysisError(f'{cons}: the path found passes `{n.text()[:60]}`, which reads the exhaustion of the plan through `{und}`; that form is not decoded')
         loc = sorted({x.id for x in ast.walk(n.ast) if isinstance(x, ast.Name) and isinstance(x.ctx, ast.Load) and x.id in defs and x.id != recv})
         if not loc:
             continue
@@ -782,6 +811,31 @@ def _firm(g: pf.CFG, p: Optional[List[pf.Node]], fn: pf.FuncDef, goal, avoid, co
 
 # attribute names through which the state "plan exhausted" is read: the `finished` property and, filled in by run(), every getter / method whose body reads it
 _FINISHED_LIKE: Set[str] = {'finished'}
+
+
+def _undecoded_finished(test: ast.AST) -> Optional[str]:
+    """A reading of `finished` in a test that _implies_finished does not decode: through a helper / another property (`self._has_work()`), or
+    inside a comparison or call (`self.finished is True`, `bool(self.finished)`).  Plain `self.finished` / `not self.finished` as operands of
+    and / or / not are decoded."""
+    def walk(t: ast.AST, plain_ok: bool) -> Optional[str]:
+        if isinstance(t, ast.Attribute) and t.attr in _FINISHED_LIKE:
+            if t.attr == 'finished' and plain_ok and cf.self_attr(t) == 'finished':
+                return None
+            return pf.nsrc(t)
+        if isinstance(t, ast.BoolOp):
+            for v in t.values:
+                r = walk(v, plain_ok)
+                if r:
+                    return r
+            return None
+        if isinstance(t, ast.UnaryOp) and isinstance(t.op, ast.Not):
+            return walk(t.operand, plain_ok)
+        for c in ast.iter_child_nodes(t):
+            r = walk(c, False)
+            if r:
+                return r
+        return None
+    return walk(test, True)
 
 
 def _note_finished_like(cm: cf.ClassModel) -> None:
@@ -1477,6 +1531,7 @@ def _inl(m: pf.Module, target: str, setter: bool = False):
     k = (m.path, target, setter)
     if k not in _inl_cache:
         _inl_cache[k] = cf.inline_with_setters(m, CLS, target, target_is_setter=setter)
+        cn.forward_single_use(_inl_cache[k][1])  # N9: arguments the inliner bound to a local go back into the store that uses them
     return _inl_cache[k]
 
 
@@ -1618,6 +1673,9 @@ def _slot_facts(ctx: Ctx, m: pf.Module, cm: cf.ClassModel, ser: List[str], closu
             if isinstance(node, ast.AugAssign) and isinstance(node.target, ast.Attribute) and isinstance(node.op, ast.Add) \
                     and isinstance(node.value, ast.Constant) and isinstance(node.value.value, int) and node.value.value >= 1:
                 counters.setdefault(attr, []).append((meth, node))
+            elif isinstance(node, ast.AugAssign) and isinstance(node.target, ast.Attribute) and isinstance(node.op, (ast.Add, ast.Sub)) \
+                    and isinstance(node.value, ast.Constant) and type(node.value.value) is int and node.value.value == 0:
+                continue  # `self.x += 0`: a recognised store that advances nothing
             elif how == 'assigned' and isinstance(getattr(node, 'targets', [None])[0] if isinstance(node, ast.Assign) else getattr(node, 'target', None), ast.Attribute):
                 other_stores.setdefault(attr, []).append(meth)
     return init_vals, counters, other_stores, sym_i
@@ -2292,7 +2350,8 @@ def check_chunking(ctx: Ctx, m: pf.Module, roots: List[_Root]) -> None:
                 continue
             var, k = loop.target.id, _norm_arith(pf.expand_locals(r.fn, it.args[2]))
             start0 = isinstance(it.args[0], ast.Constant) and it.args[0].value == 0
-            covered = isinstance(it.args[1], ast.Call) and pf.dotted(it.args[1].func) == 'len'
+            stop = pf.expand_locals(r.fn, it.args[1])
+            covered = isinstance(stop, ast.Call) and pf.dotted(stop.func) == 'len'
             for st in loop.body:
                 for sub in [n for n in pf.walk_shallow(st) if isinstance(n, ast.Subscript) and isinstance(n.slice, ast.Slice)]:
                     sl = sub.slice
@@ -2936,11 +2995,16 @@ def check_plan_identity(ctx: Ctx, m: pf.Module) -> None:
     defs = pf.assignments(nc)
     # values re-applied to a loaded plan (they are allowed to differ between the plan and the call)
     overrides: Set[str] = set()
+    resume_reads: Set[str] = set()  # every name the nested (resume) functions read: an argument used there in another way may be re-applied in a form not recognised
     loads_plan = False
     for sub in [n for n in ast.walk(nc) if isinstance(n, (ast.FunctionDef, ast.AsyncFunctionDef)) and n is not nc]:
+        resume_reads |= {x.id for x in ast.walk(sub) if isinstance(x, ast.Name) and isinstance(x.ctx, ast.Load)}
         for st in pf.walk_shallow(sub):
             if isinstance(st, ast.Assign) and isinstance(st.targets[0], ast.Attribute) and isinstance(st.value, ast.Name):
                 overrides.add(st.value.id)
+            if isinstance(st, ast.Expr) and isinstance(st.value, ast.Call) and pf.dotted(st.value.func) == 'setattr' and len(st.value.args) == 3 \
+                    and isinstance(st.value.args[2], ast.Name):
+                overrides.add(st.value.args[2].id)
         loads_plan = loads_plan or any((pf.dotted(c.func) or '').split('.')[-1] in ('load_combiner', 'load') for c in pf.calls_in(sub))
     ctx.need(loads_plan, f'{where}: the resume path (load_combiner) was not found')
     # what feeds the hash
@@ -3026,6 +3090,7 @@ def check_plan_identity(ctx: Ctx, m: pf.Module) -> None:
                 ctx.need(dp, f'{where}: cannot tell which arguments `{n}` (passed as `{k.arg}`) is computed from')
                 cand |= dp  # the parameters a local is computed from
         ok = bool(cand & hashed)
+        ctx.need(ok or not (pf.names_in(k.value) & resume_reads), f'{cons}: `{pf.nsrc(k.value)[:40]}` is also read on the resume path; whether it is re-applied to a loaded plan there is not recognised')
         ctx.need(ok or not escapes, f'{cons}: the hash object is also used as `{escapes[0] if escapes else ""}`; what is fed to it there is not followed')
         ctx.check(ok, 'R11', cons, f'new_combiner passes `{k.arg}={pf.nsrc(k.value)}` to the constructor but nothing it is computed from ({sorted(cand & (params | set(defs)))[:6]}) '
                   f'feeds the digest that names the generated save path: a second call with a different `{k.arg}` finds the plan of the first call at the same path '
